@@ -146,6 +146,16 @@ Definition run_factory (cfg : config) (names : list (list Z)) : result (list (li
 (* "identifier n was written as o": position-wise pairing of requests and results *)
 Definition observed (names outs : list (list Z)) (n o : list Z) : Prop := In (n, o) (combine names outs).
 
+(* ---------- which configuration reaches the factory from the command line ----------
+   LuaMinifyTokenWriter.__init__ builds the factory from its writer args with defaults
+   (mtw_factory_src).  tool.luamin passes both options (luamin_writer_src).  build.do_build sets
+   lua_writer_args only in its --lua-format branch, so with --lua-minify the writer gets args=None
+   and every option falls back to its default (build_writer_selection_src): suspected defect S3. *)
+Definition luamin_config (keep_all_names : bool) (keep_file : option (list Z)) : config :=
+  mk_config keep_all_names keep_file.
+Definition build_minify_config (keep_all_names : bool) (keep_file : option (list Z)) : config :=
+  mk_config false None.
+
 (* the names get_short_name must leave as written, spelled out over the regenerated tables *)
 Definition is_kept (cfg : config) (n : list Z) : Prop :=
   keep_all cfg = true \/ In n lua_keywords \/ In n pico8_builtins \/
